@@ -64,6 +64,11 @@ CLAIMED = {
         text="Unbounded theorems for every glyph type, record type and glyph-id function: _sort_by_gid returns a permutation sorted by glyph id (strictly, for distinct glyphs) whose parallel array stays paired with its glyphs (the (glyph, record) relation is unchanged); ReorderList sorts and permutes. A table theorem re-checked on every run: the live _REORDER_RULES covers every coverage field of every GSUB/GPOS/GDEF subtable type/format of a hand-written schema (cross-checked against fontTools' otData) with exactly its parallel array. The model is tied to the code by evaluating it in Coq on random inputs, and reorder_glyphs + save + reload is run on synthetic fonts containing all 25 schema entries, comparing schema-driven name-keyed canonical forms of GSUB/GPOS/GDEF, cmap, hmtx, glyf (incl. composites) and COLR v0/v1, and checking raw coverage order.",
         ref="DESIGN.md 8 C11",
     ),
+    "C12": dict(
+        technique="machine-checked proof in Coq (glyph-order construction of _copy_svg keeps donor glyph ids and permutes; {gid:05d} naming round trip; advance and placement identities of the extract/generate steps) + correspondence by vm_compute + real maximum_color CLI runs compared name-keyed with their inputs",
+        text="Unbounded theorems: when _copy_svg's order construction succeeds every donor SVG glyph sits at its donor glyph id and the new order is a permutation of the target's (for any glyph type, any increasing gid ranges); the file stem written for a glyph id reads back as that id for every id, so the glyphmap maps each per-glyph SVG to the original glyph; width=0 with viewBox 0 0 w (asc-desc) gives advance exactly w; an OT-SVG glyph extracted under translate(0,asc) lands on its font-space mirror image with scale 1 and no shift; an SVG generated under viewBox=glyph_region is rebuilt with the identity placement. The order model is tied to the real _copy_svg (run on fake fonts) by evaluation in Coq, incl. the IndexError case. End to end through the real `python -m nanoemoji.maximum_color`: fonts nanoemoji emits (COLRv0/v1, picosvg, untouchedsvg; sequences) and hand-made-style COLR/SVG fonts (kerning, mark, ligature and contextual lookups, two palettes, no space glyph, colour glyphs whose name order differs from gid order) x {--bitmaps, --colr_version 0/1, --keep_glyph_names}: cmap, advances, outlines, GSUB/GPOS/GDEF meaning, name, line metrics, the original colour table and CPAL are compared name-keyed; every colour table must cover the same glyphs and COLR and OT-SVG must paint the same picture per glyph; the output must satisfy the C07 validity predicates; the stripped build must equal the kept-names build minus names. Documented limits (CBDT bitmap wider than 255 px, signed-byte line metrics, a palette variable with two opacities in COLRv0) count as rejections only when the input justifies them. CBDT pixels are not compared.",
+        ref="DESIGN.md 8 C12",
+    ),
     "C13": dict(
         technique="machine-checked proof in Coq (inverse placement, conjugated path transform, projection-point linear gradient = three-point gradient; with C16/C01 theorems for transforms and radial split) + end-to-end comparison of colr_to_svg output against an independent COLR renderer on generated paint graphs",
         text="Unbounded theorems over any field: the font->viewBox map undoes the source placement; a <path> drawn through V with transform V A V^-1 shows V(A(outline)); the SVG gradient through P0 and the projection point P3 has exactly the colour function of the COLR gradient (P0,P1,P2) for every non-degenerate rotated P2. End to end: COLRv1 fonts are built with fontTools.colorLib from generated paint graphs (all supported paint formats incl. Rotate/Skew/ColrGlyph/composite glyphs that nanoemoji itself never emits, 3 extend modes, 1-3 palettes, several viewBoxes), converted by the real colr_to_svg, and the SVG (rendered by the independent interpreter, mapped back by the placement) is compared layer by layer with the COLR rendering of the graph; COLRv0 likewise; every unsupported format (sweep, Var*, other composite modes) must raise or warn - enumerated.",
